@@ -205,6 +205,27 @@ class Script:
         else:
             self.peer(17, 0, b"\x00" + command("FCUnpublish", 0, NULL, [S("k")]))
 
+    def stale_stream_request(self):
+        """a publish / play request whose stream disappears (deleteStream) - or never existed - before the application answers: the
+        accept fails, and the request id must be consumed all the same (a second accept or a reject is refused)"""
+        r = self.rng
+        if r.chance(2, 3):
+            self.create_stream()
+            sid = self.streams[-1]
+            (self.publish if r.chance(1, 2) else self.play)(sid)
+            self.peer(20, 0, command("deleteStream", 0, NULL, [Num(sid)]))
+            if sid in self.streams:
+                self.streams.remove(sid)
+        else:
+            sid = r.choice([7, 9, 4294967295])
+            (self.publish if r.chance(1, 2) else self.play)(sid)
+        rid = self.req - 1
+        self.app("accept %d %d" % (self.tick(), rid))
+        if r.chance(1, 2):
+            self.app("accept %d %d" % (self.tick(), rid))
+        else:
+            self.app("reject %d %d %s %s" % (self.tick(), rid, hexs(b"NetStream.Publish.Failed"), hexs(b"gone")))
+
     def burst(self):
         """several messages of different kinds in ONE input call (where the call boundaries fall must not matter, C15): includes the
         message types a server rarely receives (Abort, Set Peer Bandwidth, Acknowledgement, unknown types) between ordinary ones"""
@@ -282,6 +303,8 @@ def gen_script(rng, tier):
             s.burst()
         if r.chance(1, 6):
             s.second_connect()
+        if r.chance(1, 8):
+            s.stale_stream_request()
         s.create_stream()
         sid = s.streams[-1]
         if r.chance(1, 2):
@@ -337,7 +360,10 @@ def ack_script(rng):
     s = Script(rng, "quick")
     s.ops.append("cfg %s 4096 2500000 1073741824 0 0" % hexs(b"v"))
     w = rng.choice([1, 2, 3, 4, 5, 6, 7, 8, 16, 100])
-    s.peer(5, 0, struct.pack(">I", w))
+    # one script in four announces w plus a high part (bits 8..31): every bit of the 32-bit window counts, so the session
+    # stays silent where a decoder that drops or masks bits would acknowledge every w bytes
+    hi = rng.choice([1 << 31, 1 << 30, 3 << 30, 1 << 24, 1 << 16, 1 << 8, 0x80808000]) if rng.chance(1, 4) else 0
+    s.peer(5, 0, struct.pack(">I", hi + w))
     for _ in range(rng.range(3, 12)):
         # a burst of small messages delivered with a fixed piece size
         n = rng.range(1, 6)
@@ -347,7 +373,7 @@ def ack_script(rng):
         s.ops.append("in %d k%d %s" % (s.tick(), rng.range(1, w + 2), hexs(data)))
         if rng.chance(1, 5):
             w = rng.choice([1, 2, 3, 5, 8, 13, 50])
-            s.peer(5, 0, struct.pack(">I", w))
+            s.peer(5, 0, struct.pack(">I", hi + w))
     return "server " + " | ".join(s.ops)
 
 
